@@ -36,6 +36,12 @@ type txnScen struct {
 	FreezeEpilogue bool
 	// NoClose: stop after the final read (Close and reopen are C15's subject and cost a table build per execution)
 	NoClose bool
+	// Reopen: the store is closed and opened again after the initial commits (still in the frozen prelude): the
+	// threads run on a recovered store - data in sstables, timestamps and both watermarks as recovery sets them
+	Reopen bool
+	// FSPoints: every file-system operation of the concurrent part is a scheduling point (a reader can run between the
+	// moment a table is announced in memory and the moment its file exists, between a rename and a remove, ...)
+	FSPoints bool
 }
 
 type stagedTxn struct {
@@ -148,6 +154,18 @@ func txnScenario(sc txnScen, obs *txnObs) vsched.Scenario {
 				obs.init.apply(rec.writes())
 			}
 			vsched.WaitQuiescent()
+			if sc.Reopen {
+				db.Close()
+				vtime.Set(vtime.Now().Add(time.Second))
+				db, err = originium.Open("/d", sc.Cfg.config())
+				if err != nil {
+					panic(err)
+				}
+				vsched.WaitQuiescent()
+			}
+			if sc.FSPoints {
+				fs.Points = true
+			}
 			var deferred []*liveTxn
 			for i, st := range sc.Staged {
 				l := startTxn(db, h, fmt.Sprintf("S%d", i+1), st.Prog, nil)
